@@ -188,6 +188,21 @@ def translate(repo):
     L.append("/-- `sizeof(T)` as reported by the compiler -/")
     L.append("def sizeofT : Ty → Nat\n" + "\n".join("  | .%s => %d" % (t, pr["sizeof_" + t]) for t in TYPES) + "\n")
 
+    # swapBytes (defs.h)
+    sw = cparse.find_function(defs.replace("\r", ""), r"inline\s+void\s+swapBytes\s*\(\s*T&\s*x\s*\)\s*\{")
+    m = re.search(r"byte\s+bx\[sizeof\(T\)\]\s*,\s*by\[sizeof\(T\)\];\s*memcpy\(bx,\s*&x,\s*sizeof\(T\)\);\s*const\s+int\s+n\s*=\s*sizeof\(T\);\s*"
+                  r"for\s*\(\s*int\s+i\s*=\s*0;\s*i\s*<\s*n;\s*i\+\+\s*\)\s*by\[i\]\s*=\s*bx\[(.*?)\];\s*memcpy\(&x,\s*by,\s*sizeof\(T\)\);", sw, re.S)
+    if not m:
+        raise TranslateError("swapBytes: body not recognised: " + " ".join(sw.split())[:200])
+    idx = re.sub(r"\s+", "", m.group(1))
+    if not re.fullmatch(r"[ni0-9+\-]+", idx) or idx[0] in "+-":
+        raise TranslateError("swapBytes: index expression `%s` not recognised" % m.group(1))
+    L.append("/-- `swapBytes`: `for (i = 0; i < n; i++) by[i] = bx[INDEX]` — the index expression (natural subtraction is exact while it stays >= 0; a negative index is out of bounds either way) -/")
+    L.append("def swapIndex (n i : Nat) : Nat := %s\n" % re.sub(r"([+\-])", r" \1 ", idx))
+    bsw = cparse.find_function(defs.replace("\r", ""), r"inline\s+T\s+bytesSwapped\s*\(\s*const\s+T&\s*x\s*\)\s*\{")
+    if not re.fullmatch(r"\{\s*T\s+y\s*=\s*x;\s*swapBytes\(y\);\s*return\s+y;\s*\}", bsw):
+        raise TranslateError("bytesSwapped: body not recognised")
+
     # StreamBuffer
     L.append("/-! StreamBuffer (writer) -/")
     L.append("def sbSwap (e : Endian) : Bool := %s" % _writer_template(sb, "StreamBuffer::operator<<(const T&)"))
@@ -266,7 +281,17 @@ def translate(repo):
     return {"Gen/StreamGen.lean": "\n".join(L)}
 
 
-FALLBACK = {}   # Gen/StreamGen.lean is regenerated on every run; a stale copy is kept if translation fails
+def _fallback():
+    # used by the engine only when translation fails AND no earlier Gen/StreamGen.lean exists (fresh restore):
+    # the definitions generated from the tree this check was written against, so that the model still builds and
+    # the correspondence check can exhibit a concrete failing input (the failed translation itself is reported).
+    try:
+        return {"Gen/StreamGen.lean": open(os.path.join(os.path.dirname(os.path.abspath(__file__)), "c16_streamgen_fallback.lean")).read()}
+    except OSError:
+        return {}
+
+
+FALLBACK = _fallback()
 
 # ------------------------------------------------------------------ K: generator
 
@@ -436,13 +461,53 @@ def gen(rng, tier):
     cases += scalar_grid()
     cases += array_grid(rng, [0, 1, 2, 3, 7, 8, 9, 31, 32, 33, 64, 99, 100] if quick else list(range(0, 101)))
     for kind in KINDS:
-        for i in range(150 if quick else 2500):
+        for i in range(300 if quick else 4000):
             cases.append(roundtrip_case(rng, kind, rng.randrange(1, 65)))
-        for i in range(20 if quick else 300):
+        for i in range(40 if quick else 400):
             cases.append(roundtrip_case(rng, kind, 64, p_switch=0.5))
-        for i in range(120 if quick else 2000):
+        for i in range(200 if quick else 3000):
             cases.append(cross_case(rng, kind))
+    global _LAST_CASES
+    _LAST_CASES = cases
     return cases
+
+
+_LAST_CASES = []
+
+
+def extra(ctx):
+    """whole-case pass of the independent python serializer over corpus + generated cases, judged on the
+    implementation alone; failures are shrunk with the whole case as the replay"""
+    import sys
+    from lib import core, engine
+    me = sys.modules[__name__]
+    cases = engine.corpus_cases(ID) + list(_LAST_CASES)
+    lines, starts = engine.flatten(cases)
+    impl, crash, err = core.run_impl(ctx["exe"], lines, timeout=600)
+    fails = []
+    checked = 0
+    for ci, c in enumerate(cases):
+        s0 = starts[ci]
+        bad = None
+        exp_all = []
+        for j, l in enumerate(c):
+            exp = _reference(l)
+            exp_all.append(exp if exp is not None else "(no opinion)")
+            i = s0 + 1 + j
+            if exp is None or i >= len(impl):
+                continue
+            checked += 1
+            if impl[i] != exp and bad is None:
+                bad = j
+        if bad is not None and len(fails) < 3:
+            f = engine.Failure("diverge", c, impl[s0:s0 + 1 + len(c)], ["case"] + exp_all)
+            g = engine.shrink(me, ctx["exe"], f)
+            g.clause = "independent reference (%s) disagrees with the implementation" % REFERENCE_NAME
+            g.name = "reference oracle over whole cases (tools/props/c16.py extra)"
+            g.has_input = True
+            fails.append(g)
+    ctx["stats"]["reference_checked_ops"] = checked
+    return fails
 
 
 def nontrivial(case):
@@ -507,6 +572,9 @@ def distribution(cases):
 
 # ------------------------------------------------------------------ independent reference (python int.to_bytes / from_bytes)
 
+HARNESS_TIMEOUT = 120
+SHRINK_KEEP_FIRST = 1   # every case starts with `new …`, which also resets the stateful reference below
+
 REFERENCE_NAME = "python3 int.to_bytes / int.from_bytes serializer written from the property statement (sys.byteorder for NATIVE)"
 _ref = {"kind": None}
 
@@ -517,8 +585,18 @@ def _order(o):
 
 
 def reference(line):
-    """expected implementation output; stateful over the lines of one case (a case starts with `new`).
-    Lines arrive in order (engine.reference_pass / fails_single)."""
+    """Independent oracle used by engine.fails_single (shrinking, --replay), which feeds the lines of ONE case in
+    order.  The oracle is stateful (the byte order in force and the bytes written so far), so a failure only makes
+    sense together with its whole case: engine.reference_pass would record the single failing line as the replay,
+    therefore the bulk pass is done by `extra` below (whole cases) and this hook gives no opinion there."""
+    import sys
+    if sys._getframe(1).f_code.co_name == "reference_pass":
+        return None
+    return _reference(line)
+
+
+def _reference(line):
+    """expected implementation output; stateful over the lines of one case (a case starts with `new`)"""
     t = line.split()
     op = t[0]
     s = _ref
@@ -630,8 +708,8 @@ EXHAUSTIVE = {"quick": "every type x {default,BIG,LITTLE,NATIVE} x {StreamBuffer
               "thorough": "the same scalar grid; Array<T> for every type x order x class at every length 0..100"}
 
 TRUSTED = ["tools/props/c16.py translate(): regex extraction (byte-order test of every operator<< / operator>>, byte count of the "
-           "non-swapping Array<T> branch, shift/index terms and _ptr advance of read2/4/8, readN dispatch of the operator>> overloads, "
-           "default byte orders) from include/asl/{StreamBuffer,File,Socket}.h and src/Socket.cpp into lean/Gen/StreamGen.lean; "
+           "non-swapping Array<T> branch, shift/index terms and _ptr advance of read2/4/8, readN dispatch of the operator>> overloads, the index expression of swapBytes, "
+           "default byte orders) from include/asl/{defs,StreamBuffer,File,Socket}.h and src/Socket.cpp into lean/Gen/StreamGen.lean; "
            "a compiled 10-line probe program for ASL_OTHER_ENDIAN, the compiler's byte order and sizeof of the 12 types",
            "the harness observes written bytes outside asl (buffer content, POSIX pread on the temp file, recv on the raw socketpair peer) "
            "and feeds readers from those observed bytes"]
@@ -653,12 +731,12 @@ LEVEL_TEXT = ("Proved in Lean 4 for all three classes, all 12 scalar types, all 
               "(scalar_read_spec, for arbitrary data), read2/4/8 index only inside the bytes they consume; reading the same types in the same "
               "orders returns the original values and leaves the rest untouched for one value (get_put) and for whole histories (read_back); "
               "length-prefixed strings read back (string_read_back). The byte-order tests, Array byte counts, read2/4/8 shift/index terms, readN "
-              "dispatch, ASL_OTHER_ENDIAN, host byte order and sizeof are regenerated from /repo on every run (G); swapBytes' loop, the overload "
+              "dispatch, swapBytes' index expression, ASL_OTHER_ENDIAN, host byte order and sizeof are regenerated from /repo on every run (G); the overload "
               "set actually selected by C++ for each type and the I/O plumbing are tied to the model by the correspondence check (K) on the three "
               "real classes, with bytes observed outside asl and an independent python serializer as second opinion.")
 LEVEL_NOTE = ("Trusted: Lean kernel, the regex translator + compiler probe, the harness. Hypotheses: memcpy/float copies preserve bit patterns, "
               "fwrite/fread/send/read transfer all bytes (partial-transfer loops belong to C17/C10). NATIVE = LITTLE in StreamBufferReader is correct "
               "only on a little-endian host: obligation gen_reader_cond fails on a big-endian build. Only K-validated (no theorem): which C++ overload "
-              "is selected per type (StreamBuffer's bool/byte/char overloads, Array<byte>), swapBytes' index loop as transcribed, default byte orders, "
+              "is selected per type (StreamBuffer's bool/byte/char overloads are pattern-checked by the translator, Array<byte>/ByteArray/String overloads are not), default byte orders, "
               "skip/read(n), Socket >> String truncation at NUL. Reads past the end and File/Socket >> bool of a byte other than 0/1 are outside the property "
               "(guarded in the protocol). Fixed defect 264bf86 (Array<T> in native order wrote length() bytes) is kept as a corpus witness.")
